@@ -334,7 +334,9 @@ impl<H: Header> DynSizedStructure<H> {
         let ptr = bytes.as_ptr().cast::<H>();
         let hdr = unsafe { &*ptr };
 
-        if hdr.payload_len() > bytes.len() {
+        // The whole structure (header + payload) must fit into the bytes.
+        // `bytes.len() >= size_of::<H>()` is guaranteed by `BytesRef`.
+        if hdr.payload_len() > bytes.len() - mem::size_of::<H>() {
             return Err(MemoryError::InvalidReportedTotalSize);
         }
 
